@@ -6,6 +6,7 @@ package scen
 import (
 	"bytes"
 	"fmt"
+	"hash/crc32"
 	"os"
 	"path/filepath"
 	"sort"
@@ -162,6 +163,14 @@ func (d Damage) Apply(names []string, state map[string][]byte) {
 			state[o] = append([]byte{}, cur...)
 		}
 		return
+	case "move":
+		// the file turns up under another protected name; its own name is gone
+		o := names[d.Other%len(names)]
+		if ok && o != name {
+			state[o] = append([]byte{}, cur...)
+			delete(state, name)
+		}
+		return
 	}
 	if !ok {
 		return
@@ -191,6 +200,19 @@ func (d Damage) Apply(names []string, state map[string][]byte) {
 		cur = append(cur, rnd(d.Len)...)
 	case "appendzeros":
 		cur = append(cur, make([]byte, d.Len)...)
+	case "crcforge":
+		// replace the window [Off, Off+Len) by different bytes with the same CRC-32 (Len >= 8)
+		off := d.Off
+		if d.Len >= 8 && off >= 0 && off+d.Len <= len(cur) {
+			w := cur[off : off+d.Len]
+			q := append([]byte{}, w...)
+			q[0] ^= byte(1 + d.Seed%255)
+			q[1] ^= byte(d.Seed >> 8)
+			ForgeCRC(q, crc32.ChecksumIEEE(w))
+			copy(cur[off:], q)
+		} else if len(cur) > 0 {
+			cur[clamp(off, len(cur)-1)] ^= 0x41
+		}
 	case "trimzeros":
 		for len(cur) > 0 && cur[len(cur)-1] == 0 {
 			cur = cur[:len(cur)-1]
@@ -512,7 +534,7 @@ func GenFiles(t *rapid.T, S, maxFiles, maxBytes, maxSlices int) []FileSpec {
 	return out
 }
 
-var damageOps = []string{"delete", "overwrite", "flip", "insert", "remove", "truncate", "append", "appendzeros", "trimzeros", "swap", "copy"}
+var damageOps = []string{"delete", "overwrite", "flip", "insert", "remove", "truncate", "append", "appendzeros", "trimzeros", "swap", "copy", "move", "crcforge"}
 
 // GenDamage draws a damage step for nfiles files; maxLen bounds file length, S the slice size.
 func GenDamage(t *rapid.T, nfiles, maxLen, S int, ops []string) Damage {
@@ -521,8 +543,12 @@ func GenDamage(t *rapid.T, nfiles, maxLen, S int, ops []string) Damage {
 	}
 	d := Damage{Op: rapid.SampledFrom(ops).Draw(t, "op"), File: rapid.IntRange(0, nfiles-1).Draw(t, "file")}
 	switch d.Op {
-	case "swap", "copy":
+	case "swap", "copy", "move":
 		d.Other = rapid.IntRange(0, nfiles-1).Draw(t, "other")
+	case "crcforge":
+		d.Off = S * rapid.IntRange(0, maxLen/S).Draw(t, "sliceidx")
+		d.Len = S
+		d.Seed = rapid.Uint64Range(0, 1<<16).Draw(t, "dseed")
 	case "overwrite", "insert", "remove":
 		d.Off = rapid.OneOf(rapid.IntRange(0, maxLen), rapid.IntRange(0, 2*S)).Draw(t, "off")
 		d.Len = rapid.IntRange(1, 2*S+1).Draw(t, "len")
@@ -571,4 +597,32 @@ func DamageKinds(ds []Damage) string {
 	}
 	sort.Strings(k)
 	return strings.Join(k, ",")
+}
+
+// ForgeCRC overwrites the last 4 bytes of b so that crc32.ChecksumIEEE(b) == target.
+func ForgeCRC(b []byte, target uint32) {
+	n := len(b)
+	tab := crc32.IEEETable
+	// register after the prefix
+	reg := ^uint32(0)
+	for _, c := range b[:n-4] {
+		reg = tab[byte(reg)^c] ^ (reg >> 8)
+	}
+	want := ^target
+	// find the table indices backwards: the top byte of a table entry identifies its index
+	var idx [4]int
+	w := want
+	for k := 3; k >= 0; k-- {
+		for i := 0; i < 256; i++ {
+			if tab[i]>>24 == w>>24 {
+				idx[k] = i
+				break
+			}
+		}
+		w = (w ^ tab[idx[k]]) << 8
+	}
+	for k := 0; k < 4; k++ {
+		b[n-4+k] = byte(reg) ^ byte(idx[k])
+		reg = tab[idx[k]] ^ (reg >> 8)
+	}
 }
